@@ -33,6 +33,9 @@ pub struct Compiler {
 
     /// Try block depth (for determining if we're in a try block)
     try_depth: usize,
+    /// Number of block scopes (PushScope without matching PopScope) open at the current
+    /// emission point of this function
+    scope_depth: u16,
 
     /// Set of variables that have been hoisted in the current scope
     /// Used to determine if we should emit DeclareVarHoisted or SetVar
@@ -94,6 +97,8 @@ struct LoopContext {
     iterator_reg: Option<Register>,
     /// True for the context of a switch statement: a target for `break` but not for `continue`
     is_switch: bool,
+    /// Number of open block scopes at the continue target (known together with the target)
+    continue_scope_depth: u16,
 }
 
 impl Compiler {
@@ -104,6 +109,7 @@ impl Compiler {
             loop_stack: Vec::new(),
             labels: FxHashMap::default(),
             try_depth: 0,
+            scope_depth: 0,
             hoisted_vars: FxHashSet::default(),
             loop_var_redirects: FxHashMap::default(),
             class_context_stack: Vec::new(),
@@ -250,6 +256,18 @@ impl Compiler {
         self.builder.registers()
     }
 
+    /// Emit PushScope and track the static scope depth
+    pub(crate) fn emit_push_scope(&mut self) {
+        self.builder.emit(Op::PushScope);
+        self.scope_depth = self.scope_depth.saturating_add(1);
+    }
+
+    /// Emit PopScope and track the static scope depth
+    pub(crate) fn emit_pop_scope(&mut self) {
+        self.builder.emit(Op::PopScope);
+        self.scope_depth = self.scope_depth.saturating_sub(1);
+    }
+
     /// Push a loop context
     fn push_loop(&mut self, label: Option<JsString>) {
         self.push_loop_with_iterator(label, None);
@@ -277,6 +295,7 @@ impl Compiler {
             try_depth: self.try_depth,
             iterator_reg,
             is_switch: false,
+            continue_scope_depth: 0,
         });
     }
 
@@ -295,8 +314,10 @@ impl Compiler {
 
         // Start from the current (innermost) context and work backwards
         // Set continue target for the current loop
+        let depth = self.scope_depth;
         if let Some(ctx) = self.loop_stack.get_mut(len - 1) {
             ctx.continue_target = Some(target);
+            ctx.continue_scope_depth = depth;
             all_pending_jumps.append(&mut ctx.continue_jumps);
         }
 
@@ -307,6 +328,7 @@ impl Compiler {
                 // Only propagate if this is a labeled context and it doesn't have a continue target
                 if ctx.label.is_some() && ctx.continue_target.is_none() {
                     ctx.continue_target = Some(target);
+                    ctx.continue_scope_depth = depth;
                     all_pending_jumps.append(&mut ctx.continue_jumps);
                 } else {
                     // Stop propagating if we hit a context that's not a label wrapper
@@ -318,6 +340,7 @@ impl Compiler {
         // Patch all pending continue jumps
         for jump in all_pending_jumps {
             self.builder.patch_jump_to(jump, target as JumpTarget);
+            self.builder.patch_scope_depth(jump, depth);
         }
     }
 
@@ -330,6 +353,7 @@ impl Compiler {
         // Patch all break jumps to current position
         for jump in &ctx.break_jumps {
             self.builder.patch_jump(*jump);
+            self.builder.patch_scope_depth(*jump, self.scope_depth);
         }
         Some(ctx)
     }
@@ -388,6 +412,7 @@ impl Compiler {
         let idx = self.builder.emit(Op::Break {
             target: 0,
             try_depth: target_try_depth,
+            scope_depth: 0, // patched together with the target
         });
         let jump = JumpPlaceholder {
             instruction_index: idx,
@@ -431,12 +456,14 @@ impl Compiler {
                 self.builder.emit(Op::Continue {
                     target: target as u32,
                     try_depth: target_try_depth,
+                    scope_depth: ctx.continue_scope_depth,
                 });
             } else {
                 // Target not yet known, save placeholder
                 let idx = self.builder.emit(Op::Continue {
                     target: 0,
                     try_depth: target_try_depth,
+                    scope_depth: 0, // patched together with the target
                 });
                 let jump = JumpPlaceholder {
                     instruction_index: idx,
